@@ -267,10 +267,13 @@ def parseCrit (j : Json) : Except String (Crit FName) := do
   | "utt_list" => Crit.uttList <$> getList jsonToName j "list"
   | _ => throw s!"bad criterion {k}"
 
-/-- case: {prefix, suffix, feat: [[size0, file name]..], others: {sub: [file names]},
-crit}. `feat` lists every file of the feat directory (size0 = 0 for files that are not
-tensors and not selected). Reply: selected utt ids in extraction order and the
-(subdir, name) pairs present in dest. -/
+/-- case: {prefix, suffix, feat: [[size0, file name]..], others: [[sub, [file names]]..],
+unrelated: [[sub, file name]..] (optional: files of `src` outside feat / the existing ali, ref —
+other sub-directories, files at the root (sub = "")), crit, link}. `feat` lists every file of
+the feat directory (size0 = 0 for files that are not tensors and not selected); `others` ANY file
+names (utterances that feat does not have included). The whole command is `subsetCmd` on the
+tree. Reply: selected utt ids in extraction order, the result of the command (sorted (subdir, name)
+pairs of dest, or FileExistsError), the declarative `copySubset`, the utterances of feat. -/
 def c17Subset : Handler := fun c => do
   let p ← getName c "prefix"
   let s ← getName c "suffix"
@@ -282,24 +285,72 @@ def c17Subset : Handler := fun c => do
       let n ← jsonToName a[0]!
       let fs ← jsonToList jsonToName a[1]!
       pure (n, fs)) c "others"
-  let avail := (feat.filter (fun e => selects p s e.2)).map (fun e => (e.1, uttOf p s e.2))
-  let sel := subsetSelect leName avail crit
+  let unrelated ← match fieldOpt c "unrelated" with
+    | none => pure []
+    | some j => jsonToList (fun j => do
+        let a ← j.getArr?
+        if a.size != 2 then throw "expected [sub, file]"
+        let n ← jsonToName a[0]!
+        let f ← jsonToName a[1]!
+        pure (n, f)) j
+  let featSub : FName := "feat".toList
+  let tree : List (FName × FName) :=
+    (feat.map (fun e => (featSub, e.2))) ++ subs.flatMap (fun (sub, fs) => fs.map (fun f => (sub, f)))
+      ++ unrelated
+  let len : FName → Nat := fun f => ((feat.find? (fun e => e.2 == f)).map (·.1)).getD 0
+  let sel := subsetSel leName p s featSub len tree crit
   let names := sel.map (fileName p s)
-  let src : List (FName × FName × Unit) :=
-    (feat.map (fun e => ("feat".toList, e.2, ()))) ++
-      subs.flatMap (fun (sub, fs) => fs.map (fun f => (sub, f, ())))
-  let dest := copySubset ("feat".toList :: subs.map (·.1)) names src
-  -- the copy loop itself (order of the code, `FileExistsError` of os.link / os.symlink)
+  let src : List (FName × FName × Unit) := tree.map (fun e => (e.1, e.2, ()))
+  let dest := copySubset (featSub :: subs.map (·.1)) names src
+  -- the whole command (listing of feat, criterion, copy loop in the order of the code,
+  -- `FileExistsError` of os.link / os.symlink)
   let link ← getBoolD c "link" true
-  let cmd := copyCmd link ("feat".toList :: subs.map (·.1)) (src.map (fun e => (e.1, e.2.1))) names
+  let cmd := subsetCmd leName p s featSub (subs.map (·.1)) len tree crit link
   let keyLe := fun (a b : FName × FName) => leName (a.1 ++ '/' :: a.2) (b.1 ++ '/' :: b.2)
   pure (objJ [("selected", listJ nameJ sel),
+    ("feat_ids", listJ nameJ (featIds p s featSub tree)),
     ("cmd", match cmd with
       | .error _ => objJ [("error", strJ "FileExistsError")]
       | .ok d => objJ [("ok", listJ (fun (e : FName × FName) => Json.arr #[nameJ e.1, nameJ e.2])
           (d.mergeSort keyLe))]),
     ("dest", listJ (fun (e : FName × FName × Unit) => Json.arr #[nameJ e.1, nameJ e.2.1])
       (dest.mergeSort (fun a b => leName (a.1 ++ '/' :: a.2.1) (b.1 ++ '/' :: b.2.1))))])
+
+/-- case: {prefix, suffix, feat: [[size0, file name]..], others: [[sub, [[R, file name]..]]..],
+unrelated: [[sub, file name]..]}: the utterances a `SpectDataSet` over the tree has
+(`dataSetIds`), the total number of frames (size0 of their feat files) and, per existing
+sub-directory, the total first dimension of their files there. -/
+def c17DataDir : Handler := fun c => do
+  let p ← getName c "prefix"
+  let s ← getName c "suffix"
+  let feat ← getList jsonToLenUtt c "feat"
+  let subs ← getList (fun j => do
+      let a ← j.getArr?
+      if a.size != 2 then throw "expected [sub, files]"
+      let n ← jsonToName a[0]!
+      let fs ← jsonToList jsonToLenUtt a[1]!
+      pure (n, fs)) c "others"
+  let unrelated ← match fieldOpt c "unrelated" with
+    | none => pure []
+    | some j => jsonToList (fun j => do
+        let a ← j.getArr?
+        if a.size != 2 then throw "expected [sub, file]"
+        let n ← jsonToName a[0]!
+        let f ← jsonToName a[1]!
+        pure (n, f)) j
+  let featSub : FName := "feat".toList
+  let tree : List (FName × FName) :=
+    (feat.map (fun e => (featSub, e.2))) ++ subs.flatMap (fun (sub, fs) => fs.map (fun f => (sub, f.2)))
+      ++ unrelated
+  let ids := dataSetIds p s featSub (subs.map (·.1)) tree
+  let size := fun (files : List (Nat × FName)) (f : FName) =>
+    ((files.find? (fun e => e.2 == f)).map (·.1)).getD 0
+  let total := fun (files : List (Nat × FName)) => (ids.map (fun u => size files (fileName p s u))).sum
+  pure (objJ [("ids", listJ nameJ (ids.mergeSort leName)),
+    ("feat_ids", listJ nameJ (featIds p s featSub tree)),
+    ("subs", listJ nameJ (dataSetSubs p s (subs.map (·.1)) tree)),
+    ("frames", natJ (total feat)),
+    ("sizes", objJ (subs.map (fun (sub, fs) => (String.ofList sub, natJ (total fs)))))])
 
 def momJ (m : Mom) : Json := objJ [("s", intJ m.s), ("ss", intJ m.ss), ("c", natJ m.c)]
 
@@ -439,4 +490,4 @@ def c17Timed : Handler := fun c => do
       ("grids", grids)])
 
 def main : IO Unit := Proto.run [("c17.names", c17Names), ("c17.rle", c17Rle), ("c17.alidir", c17AliDir), ("c17.refdir", c17RefDir), ("c17.er", c17Er),
-  ("c17.subset", c17Subset), ("c17.moments", c17Moments), ("c17.mvn", c17Mvn), ("c17.trn", c17Trn), ("c17.timed", c17Timed)]
+  ("c17.subset", c17Subset), ("c17.datadir", c17DataDir), ("c17.moments", c17Moments), ("c17.mvn", c17Mvn), ("c17.trn", c17Trn), ("c17.timed", c17Timed)]
